@@ -172,6 +172,11 @@ func (b *assignmentBuilder) structFieldAndStructGettersAndFields(lhs bmodel.Node
 			!opts.CompareFieldName(lhs.ObjName(), rhs.ObjName()) {
 			return
 		}
+		if m, ok := rhs.(bmodel.StructMethodNode); ok && m.PtrRecv() &&
+			!util.IsPtr(rhsStruct.ExprType()) && !isAddressable(rhsStruct) {
+			// A pointer receiver method cannot be called on a value whose address cannot be taken.
+			return
+		}
 
 		if util.IsSliceType(lhs.ExprType()) && util.IsSliceType(rhs.ExprType()) {
 			if !b.isNameable(util.SliceElement(lhs.ExprType())) {
@@ -318,9 +323,13 @@ func (b *assignmentBuilder) createWithConverter(lhs, rhs bmodel.Node, converter 
 // isAddressable returns true if the expression of the node is a variable or a field selection,
 // whose address can be taken.
 func isAddressable(node bmodel.Node) bool {
-	switch node.(type) {
-	case bmodel.RootNode, bmodel.ScalarNode, bmodel.StructFieldNode:
+	switch n := node.(type) {
+	case bmodel.RootNode, bmodel.ScalarNode:
 		return true
+	case bmodel.StructFieldNode:
+		// x.f is addressable if x is, or if x is a pointer, for x.f then stands for (*x).f.
+		parent := n.Parent()
+		return parent == nil || util.IsPtr(parent.ExprType()) || isAddressable(parent)
 	}
 	return false
 }
@@ -494,7 +503,7 @@ func (b *assignmentBuilder) resolveExpr(matcher *option.IdentMatcher, root bmode
 		isLast := matcher.PathLen() == i+1
 		pkg := util.PkgOf(typ)
 
-		obj, _, _ := types.LookupFieldOrMethod(typ, true, pkg, matcher.NameAt(i))
+		obj, _, _ := types.LookupFieldOrMethod(typ, isAddressable(node), pkg, matcher.NameAt(i))
 		if obj == nil {
 			return
 		}
@@ -574,7 +583,7 @@ func (b *assignmentBuilder) resolveTemplatedExpr(
 		isLast := matcher.PathLen() == i+1
 
 		pkg := util.PkgOf(typ)
-		obj, _, _ := types.LookupFieldOrMethod(typ, true, pkg, matcher.NameAt(i))
+		obj, _, _ := types.LookupFieldOrMethod(typ, isAddressable(node), pkg, matcher.NameAt(i))
 		if obj == nil {
 			return
 		}
